@@ -89,7 +89,12 @@ pub struct ExchCfg {
     /// which oracle failures belong to the property this exchange is explored for (key without the
     /// property prefix); anything else makes the check UNDECIDED instead of raising its alarm
     pub scope: fn(&str) -> bool,
+    /// builds the Prepare flow some other way than from `req` directly (e.g. by following a redirect);
+    /// `req` then only describes the effective request for the reference models
+    pub prep: Option<PrepFn>,
 }
+
+pub type PrepFn = Arc<dyn Fn() -> Result<ureq_proto::client::flow::Flow<(), ureq_proto::client::flow::state::Prepare>, String> + Send + Sync>;
 
 pub fn scope_all(_k: &str) -> bool {
     true
@@ -97,6 +102,10 @@ pub fn scope_all(_k: &str) -> bool {
 
 impl ExchCfg {
     pub fn new(prop: &'static str, req: ReqCfg, body: Vec<u8>, server: Vec<ServerMsg>, trailing: Vec<u8>, menu: Menu) -> Result<ExchCfg, String> {
+        Self::new_with_prep(prop, req, body, server, trailing, menu, None)
+    }
+
+    pub fn new_with_prep(prop: &'static str, req: ReqCfg, body: Vec<u8>, server: Vec<ServerMsg>, trailing: Vec<u8>, menu: Menu, prep: Option<PrepFn>) -> Result<ExchCfg, String> {
         let mut stream = Vec::new();
         let mut layout = Vec::new();
         for m in &server {
@@ -108,7 +117,10 @@ impl ExchCfg {
         }
         stream.extend_from_slice(&trailing);
         // canonical head: one write into a large buffer on a fresh flow
-        let f = req.build_prepare()?;
+        let f = match &prep {
+            Some(p) => p()?,
+            None => req.build_prepare()?,
+        };
         let mut f = f.proceed();
         let mut buf = vec![0u8; 16384];
         let n = f.write(&mut buf).map_err(|e| format!("request is not writable: {:?}", e))?;
@@ -119,7 +131,7 @@ impl ExchCfg {
         let eff_has = |name: &str| req.added.iter().chain(req.orig.iter()).any(|(k, _)| k.eq_ignore_ascii_case(name));
         let te_chunked = req.added.iter().chain(req.orig.iter()).any(|(k, v)| k.eq_ignore_ascii_case("transfer-encoding") && v.eq_ignore_ascii_case(b"chunked"));
         let req_chunked = te_chunked || !eff_has("content-length");
-        Ok(ExchCfg { prop, req, body, server, trailing, menu, stream, layout, ref_head, req_chunked, start_at: None, scope: scope_all })
+        Ok(ExchCfg { prop, req, body, server, trailing, menu, stream, layout, ref_head, req_chunked, start_at: None, scope: scope_all, prep })
     }
 
     pub fn to_json(&self) -> Value {
@@ -230,7 +242,10 @@ type R = Result<(), (String, String)>;
 
 impl Exch {
     pub fn new(cfg: Arc<ExchCfg>) -> Result<Exch, String> {
-        let f = cfg.req.build_prepare()?;
+        let f = match &cfg.prep {
+            Some(p) => p()?,
+            None => cfg.req.build_prepare()?,
+        };
         let start = cfg.start_at;
         let mut e = Exch {
             cfg,
@@ -798,9 +813,22 @@ impl Exch {
                     let mut sr = nf.proceed();
                     let mut buf = vec![0u8; 8192];
                     match sr.write(&mut buf) {
+                        Err(ureq_proto::Error::OutputOverflow) => return Err("second exchange: the head of the redirected request does not fit an 8 KiB buffer (OutputOverflow)".into()),
                         Err(_) => return Ok(()), // the library refuses to write it (e.g. inherited chunked header on a GET): nothing emitted
                         Ok(0) => return Err("second exchange: head write emitted nothing".into()),
                         Ok(_) => {}
+                    }
+                    // the head must complete within a few more large writes
+                    let mut extra = 0;
+                    while !sr.can_proceed() {
+                        extra += 1;
+                        if extra > 4 {
+                            return Err("second exchange: the head of the redirected request never completes".into());
+                        }
+                        match sr.write(&mut buf) {
+                            Ok(n) if n > 0 => {}
+                            o => return Err(format!("second exchange: head of the redirected request stuck: {:?}", o)),
+                        }
                     }
                     let mut cur = AnyFlow::SendRequest(sr);
                     let mut steps = 0;
